@@ -71,3 +71,8 @@ EDITS += [
     {"id": "sentinel-test-keeps-the-unlabelled", "expect": "fire", "rule": "C10.O5", "file": L,
      "old": "    valid_mask = data_intervals != -1", "new": "    valid_mask = data_intervals == -1"},
 ]
+
+# round 8 (hardening that is not)
+EDITS += [
+    {'id': 'r8-boundaries-clipped-to-grid', 'expect': 'fire', 'rule': 'C10.O5', 'file': 'spowtd/load.py', 'old': '    assert len(valid_boundaries) % 2 == 0\n', 'new': '    valid_boundaries = np.clip(valid_boundaries, time_grid[0], time_grid[-1]).tolist()\n    assert len(valid_boundaries) % 2 == 0\n'},
+]
